@@ -116,12 +116,13 @@ def obligations(tier, seed):
         base.append(ob)
     base += [ob for ob in profiles.p_facility(thorough, H=H) if "fsk=all" in ob["name"] and "solof=0" in ob["name"]]
     base += [ob for ob in profiles.p_product("F2", thorough, H=H) if "wps=2" in ob["name"]]
+    base += [ob for ob in profiles.p_product("F3", thorough, H=H) if "wps=2" in ob["name"] and ("wprule=0" in ob["name"] or thorough)]
     for ob in base:
         ob = dict(ob)
         if not thorough:
             # the pause step multiplies every schedule: keep the other ranges narrow in the quick tier
             narrow = {"f11": (1, 1), "a1": (-1, -1), "fa0": (-1, 0), "s00": (1, 2), "f00": (1, 2), "w1": (1, 2), "z1": (1, 1), "fs1": (1, 1),
-                      "cap1": (1, 2), "cap0": (1, 2), "wa1": (-1, -1), "wa0": (-1, 1), "pa1": (-1, 2), "pa0": (-1, 2)}
+                      "cap1": (1, 2), "cap0": (1, 2), "w2": (1, 1), "wa1": (-1, -1), "wa0": (-1, 1), "pa1": (-1, 2), "pa0": (-1, 2)}
             ob["params"] = [[n, max(lo, narrow[n][0]), min(hi, narrow[n][1])] if n in narrow else [n, lo, hi] for n, lo, hi in ob["params"]]
         ob["harness"] = "memory"
         ob["name"] = "memory/" + ob["name"]
